@@ -39,6 +39,38 @@ static int write_file_data(sqfs_dir_iterator_t *it, const sqfs_dir_entry_t *ent)
 	return ret;
 }
 
+/* names of the entries that were left out because tar cannot express them */
+static char **skipped;
+static size_t num_skipped;
+
+static int remember_skipped(const char *name)
+{
+	char **new = realloc(skipped, sizeof(skipped[0]) * (num_skipped + 1));
+
+	if (new == NULL)
+		return SQFS_ERROR_ALLOC;
+
+	skipped = new;
+	skipped[num_skipped] = strdup(name);
+	if (skipped[num_skipped] == NULL)
+		return SQFS_ERROR_ALLOC;
+
+	num_skipped += 1;
+	return 0;
+}
+
+static bool was_skipped(const char *name)
+{
+	size_t i;
+
+	for (i = 0; i < num_skipped; ++i) {
+		if (strcmp(skipped[i], name) == 0)
+			return true;
+	}
+
+	return false;
+}
+
 static int write_entry(sqfs_dir_iterator_t *it, const sqfs_dir_entry_t *ent)
 {
 	static unsigned int record_counter;
@@ -54,6 +86,13 @@ static int write_entry(sqfs_dir_iterator_t *it, const sqfs_dir_entry_t *ent)
 			sqfs_perror(ent->name, "reading link target", ret);
 			return ret;
 		}
+	}
+
+	/* a further name of something that is not in the archive */
+	if ((ent->flags & SQFS_DIR_ENTRY_FLAG_HARD_LINK) &&
+	    was_skipped(target)) {
+		sqfs_free(target);
+		return SQFS_ERROR_UNSUPPORTED;
 	}
 
 	ret = it->read_xattr(it, &xattr);
@@ -144,7 +183,12 @@ int main(int argc, char **argv)
 				goto out;
 			}
 			fprintf(stderr, "Skipping %s\n", ent->name);
+			ret = remember_skipped(ent->name);
 			sqfs_free(ent);
+			if (ret) {
+				sqfs_perror(filename, NULL, ret);
+				goto out;
+			}
 			continue;
 		}
 
